@@ -16,6 +16,9 @@ import time
 
 ROOT = os.path.dirname(os.path.dirname(os.path.abspath(__file__)))
 
+#: seeded changes that are decided by another property's check than the one they were written for
+OWNER = {"C08_r2": "C19"}
+
 
 def sh(cmd, cwd=None, env=None, timeout=3600):
     e = dict(os.environ)
@@ -28,32 +31,33 @@ def main():
     ids = sys.argv[1:] or sorted(os.listdir(os.path.join(ROOT, "seeded")))
     tier = os.environ.get("MUTANT_TIER", "quick")
     results = {}
-    for pid in ids:
-        patch = os.path.join(ROOT, "seeded", pid, "patch.diff")
+    for name in ids:
+        pid = OWNER.get(name, name.split("_")[0])
+        patch = os.path.join(ROOT, "seeded", name, "patch.diff")
         if not os.path.exists(patch):
             continue
-        wt = tempfile.mkdtemp(prefix=f"dexsim_mut_{pid}_")
+        wt = tempfile.mkdtemp(prefix=f"dexsim_mut_{name}_")
         os.rmdir(wt)
         try:
             rc, out = sh(f"git -C /repo worktree add -q {wt} HEAD")
             if rc:
-                results[pid] = {"error": out[-300:]}
+                results[name] = {"error": out[-300:]}
                 continue
             rc, out = sh(f"git apply {patch}", cwd=wt)
             if rc:
-                results[pid] = {"error": "patch does not apply: " + out[-300:]}
+                results[name] = {"error": "patch does not apply: " + out[-300:]}
                 continue
             t = time.time()
             rc, out = sh(f"/venv/bin/python -m dexsim check {pid} --tier {tier}", cwd=ROOT,
                          env={"DEXSIM_SDK_SRC": f"{wt}/src", "DEXSIM_EVIDENCE_DIR": os.path.join(wt, "_ev"),
                               "DEXSIM_OUT_DIR": os.path.join(wt, "_out")})
             classes = [l.strip().split()[0] for l in out.splitlines() if l.strip().startswith("class=")]
-            results[pid] = {"exit": rc, "wall_s": round(time.time() - t, 1), "classes": classes,
+            results[name] = {"check": pid, "exit": rc, "wall_s": round(time.time() - t, 1), "classes": classes,
                             "detected": rc == 1 and any(l.startswith("VIOLATION property=" + pid) for l in out.splitlines())}
         finally:
             sh(f"git -C /repo worktree remove --force {wt}")
             sh(f"rm -rf {wt}")
-        print(pid, json.dumps(results[pid]), flush=True)
+        print(name, json.dumps(results[name]), flush=True)
     missed = [p for p, r in results.items() if not r.get("detected")]
     print(f"mutants: {len(results) - len(missed)}/{len(results)} detected; missed: {missed}")
     sys.exit(1 if missed else 0)
